@@ -112,6 +112,7 @@ func installHook() {
 	}
 	numLabels = int(numOps) * (numKinds + 1)
 	pairSeen = make([]uint64, (numLabels*numLabels+63)/64)
+	hook.SimNow = simEpoch // the simulated clock starts on 2026-01-01T00:00:00Z in every worker process
 	hook.Hook = yieldHook
 }
 
@@ -268,6 +269,12 @@ func executeRun(s *RunSpec, runIdx int, racePath string) (doneEv, *violEv) {
 	d.Faults["lock_wait"] = int(lockWaits())
 	d.Faults["foreign_goroutine_hook_calls"] = int(foreignCalls())
 	d.Faults["stall"] = int(stall)
+	if hook.ClockSites > 0 {
+		d.Faults["clock_jump"] = int(sClkJumps)
+		d.Faults["clock_reads_by_the_tree"] = int(hook.ClockReads)
+		d.SimS = float64(hook.SimNow-sClkStart) / 1e9
+		hook.ClockReads = 0
+	}
 	if s.Sched.StallHot {
 		d.Faults["stall_in_front_of_shared_state"] = int(stall)
 	}
